@@ -7,17 +7,6 @@ impl Language {
     #[verifier::external_body] pub fn new_plutus_v2() -> (r: Language) ensures r == lang_v2() { unimplemented!() }
     #[verifier::external_body] pub fn new_plutus_v3() -> (r: Language) ensures r == lang_v3() { unimplemented!() }
 }
-macro_rules! ser_coll { ($($n:ident),* $(,)?) => { verus!{ $(
-    #[verifier::external_body] pub struct $n { _p: core::marker::PhantomData<u8> }
-    impl Ser for $n {
-        uninterp spec fn enc(&self) -> Seq<Tok>;
-        #[verifier::external_body] fn serialize(&self, serializer: &mut Serializer) -> (r: Result<(), CborError>) { unimplemented!() }
-    }
-    impl NoneOrEmpty for $n {
-        uninterp spec fn empty(&self) -> bool;
-        #[verifier::external_body] fn is_none_or_empty(&self) -> (r: bool) { unimplemented!() }
-    }
-)* } } }
 ser_coll!(Vkeywitnesses, NativeScripts, BootstrapWitnesses, PlutusScripts, PlutusList, Redeemers);
 impl NativeScripts {
     pub uninterp spec fn enc_set(&self, dedup: bool) -> Seq<Tok>;
@@ -35,8 +24,4 @@ impl PlutusScripts {
     #[verifier::external_body] pub fn has_version(&self, language: &Language) -> (r: bool) ensures r == self.has(*language) { unimplemented!() }
     #[verifier::external_body] pub fn serialize_as_set_by_version(&self, need_deduplication: bool, version: &Language, serializer: &mut Serializer) -> (r: Result<(), CborError>)
         ensures r is Ok ==> final(serializer).toks() == old(serializer).toks() + self.enc_ver(need_deduplication, *version) { unimplemented!() }
-}
-impl<T: NoneOrEmpty> NoneOrEmpty for Option<T> {
-    open spec fn empty(&self) -> bool { match self { Some(x) => x.empty(), None => true } }
-    #[verifier::external_body] fn is_none_or_empty(&self) -> (r: bool) { unimplemented!() }
 }
